@@ -70,6 +70,9 @@ fn whole_file_routes(cut: &[u8], shx: Option<&[u8]>, dbf: &[u8]) -> Vec<(&'stati
     };
     let mut out: Vec<(&'static str, Result<Vec<D>, (String, bool)>)> = vec![];
     out.push(("ShapeReader::read", mk().and_then(|r| r.read()).map(|v| v.iter().map(|s| s.d()).collect()).map_err(e)));
+    if let Some(t) = crate::rawshp::le32(cut, 32).filter(|c| crate::gen::TYPES.contains(c)) {
+        out.push(("ShapeReader::read_as(own type)", for_type!(t, S => mk().and_then(|r| r.read_as::<S>()).map(|v| v.iter().map(|s| s.d()).collect()).map_err(e))));
+    }
     out.push((
         "Reader::read",
         mk().and_then(|r| Ok(Reader::new(r, shapefile::dbase::Reader::new(c(dbf))?)))
@@ -200,6 +203,32 @@ fn truncations(f: &File, fi: usize, ctx: &Ctx, rep: &mut Report) {
                     }
                 }
             }
+            // ---- the one-liners on the file just written (by-path samples): one result for the whole file
+            if route == "path" && l >= 100 && !cfg!(miri) {
+                let base = format!("{}/files/f{}_{}", ctx.out, fi, if with_shx { "idx" } else { "noidx" });
+                let path = format!("{}.shp", base);
+                let _ = std::fs::write(format!("{}.dbf", base), &f.dbf);
+                let e = |x: Error| (err_class(&x), matches!(x, Error::IoError(_)));
+                let rs: Vec<(&str, Result<usize, (String, bool)>)> = vec![
+                    ("read_shapes(path)", panicmon::catch(|| shapefile::read_shapes(&path).map(|v| v.len()).map_err(e)).unwrap_or_else(|p| Err((format!("panic {}", p.class()), false)))),
+                    ("shapefile::read(path)", panicmon::catch(|| shapefile::read(&path).map(|v| v.len()).map_err(e)).unwrap_or_else(|p| Err((format!("panic {}", p.class()), false)))),
+                ];
+                for (name, r) in rs {
+                    rep.count("cuts_read_through_path_one_liners", 1);
+                    let bad: Option<String> = match r {
+                        Ok(k) if l < f.shp.len() => Some(format!("cut-record-not-reported: {} returned Ok with {} shapes", name, k)),
+                        Ok(k) if k != n => Some(format!("{} on the complete file returned {} of {} shapes", name, k, n)),
+                        Ok(_) => None,
+                        Err((_, true)) if l < f.shp.len() => None,
+                        Err((class, _)) if l < f.shp.len() => Some(format!("cut-record-not-io-error: {} failed with {}", name, class)),
+                        Err((class, _)) => Some(format!("error-on-complete-file: {} failed with {}", name, class)),
+                    };
+                    if let Some(b) = bad {
+                        rep.violation(&sig(&format!("{}/{}", name, b.split(':').next().unwrap_or("bad").split(' ').next().unwrap_or("bad"))), &case, detail(&b, J::Null));
+                    }
+                }
+                let _ = std::fs::remove_file(format!("{}.dbf", base));
+            }
             // ---- the same cut through the routes that answer once for the whole file, and through
             //      random access (every 3rd length, the boundaries always)
             if route == "cursor" && l >= 100 && (l % 3 == fi % 3 || near_end) && !cfg!(miri) {
@@ -298,6 +327,19 @@ fn truncations(f: &File, fi: usize, ctx: &Ctx, rep: &mut Report) {
                 }
             }
             Ok(Ok((it, nth))) => {
+                // a cut index that opens has to say so somewhere: an I/O error from the iteration or a
+                // count below n is an observable sign; the full count without any error is not possible,
+                // and n items without error from fewer than n entries would be invented
+                if m < f.shx.len() && m >= 100 {
+                    let errs = it.iter().any(|i| matches!(i, Item::Err(..)));
+                    let oks = it.iter().filter(|i| matches!(i, Item::Ok(_))).count();
+                    let entries_left = (m - 100) / 8;
+                    if !errs && oks != n {
+                        // silently shorter: the cut is not reported by anything
+                        rep.violation("trunc-shx/cut-index-not-reported", &case, detail(&format!("the index was cut to {} whole entries, the reader opened it and iterated {} shapes without any error", entries_left, oks)));
+                    }
+                    rep.count("cut_index_accepted_at_open", 1);
+                }
                 // an accepted (shorter) index must still only produce genuine shapes, in order
                 for (label, items) in [("iter", &it), ("nth", &nth)] {
                     for (k, i) in items.iter().enumerate() {
@@ -324,6 +366,9 @@ fn truncations(f: &File, fi: usize, ctx: &Ctx, rep: &mut Report) {
 /// `order` 0: open, iterate to the end, read_nth_shape for each i.
 /// `order` 1 (index only): open, read_nth_shape(0), iterate, read_nth_shape(n-1), iterate.
 fn traversal(shp: Src, shx: Option<Src>, n: usize, order: u8) -> Result<Vec<(usize, String, bool, bool, Option<D>)>, panicmon::PanicInfo> {
+    if order == 4 {
+        return traversal_complete(shp, shx, n);
+    }
     panicmon::catch(|| {
         let mut calls = vec![];
         let set = |e: usize| {
@@ -348,9 +393,10 @@ fn traversal(shp: Src, shx: Option<Src>, n: usize, order: u8) -> Result<Vec<(usi
                 return calls;
             }
         };
-        if order == 2 {
+        if order == 2 || order == 3 {
             // the public seek is a call under test of its own, then the iteration it positions
-            let k = n / 2;
+            // (order 3: a seek behind the last record, which positions the source at its end)
+            let k = if order == 3 { n + 1 } else { n / 2 };
             epoch += 1;
             set(epoch);
             match rd.seek(k) {
@@ -409,6 +455,58 @@ fn traversal(shp: Src, shx: Option<Src>, n: usize, order: u8) -> Result<Vec<(usi
     })
 }
 
+/// Order 4: the complete reader (a healthy table of n rows next to the failing shape sources):
+/// open, then the pair iterator to its end, each `next()` an epoch of its own.
+fn traversal_complete(shp: Src, shx: Option<Src>, n: usize) -> Result<Vec<(usize, String, bool, bool, Option<D>)>, panicmon::PanicInfo> {
+    panicmon::catch(|| {
+        let mut calls = vec![];
+        let set = |e: usize| {
+            shp.set_epoch(e);
+            if let Some(x) = &shx {
+                x.set_epoch(e);
+            }
+        };
+        let mut epoch = 1;
+        set(epoch);
+        let rd = match &shx {
+            Some(x) => ShapeReader::with_shx(shp.clone(), x.clone()),
+            None => ShapeReader::new(shp.clone()),
+        };
+        let rd = match rd {
+            Ok(r) => {
+                calls.push((epoch, "open".to_string(), false, false, None));
+                r
+            }
+            Err(e) => {
+                calls.push((epoch, "open".to_string(), true, matches!(e, Error::IoError(_)), None));
+                return calls;
+            }
+        };
+        let db = shapefile::dbase::Reader::new(Cursor::new(dbf_with_rows(n))).expect("harness: dbf");
+        let mut full = Reader::new(rd, db);
+        let mut it = full.iter_shapes_and_records();
+        loop {
+            epoch += 1;
+            set(epoch);
+            match it.next() {
+                None => {
+                    calls.push((epoch, "pair-next->None".to_string(), false, false, None));
+                    break;
+                }
+                Some(Ok((s, _))) => calls.push((epoch, "pair-next".to_string(), false, false, Some(s.d()))),
+                Some(Err(e)) => {
+                    calls.push((epoch, "pair-next".to_string(), true, matches!(e, Error::IoError(_)), None));
+                    break;
+                }
+            }
+            if calls.len() > n + 6 {
+                break;
+            }
+        }
+        calls
+    })
+}
+
 /// The same records with 2..8 filler bytes in front of each (a valid layout when read through
 /// the index, which is rebuilt accordingly; the header length covers the whole file).
 fn padded_variant(f: &File) -> (Vec<u8>, Vec<u8>) {
@@ -447,8 +545,8 @@ fn faults_and_chunks(f: &File, fi: usize, ctx: &Ctx, rep: &mut Report) {
         // undisturbed traversal: number of operations on each source
         let shp = Src::new(lshp.clone());
         let shx = if with_shx { Some(Src::new(lshx.clone())) } else { None };
-        for order in [0u8, 1, 2] {
-        if order >= 1 && !with_shx {
+        for order in [0u8, 1, 2, 3, 4] {
+        if (1..=3).contains(&order) && !with_shx {
             continue;
         }
         let base = match traversal(shp.clone(), shx.clone(), n, order) {
@@ -464,7 +562,7 @@ fn faults_and_chunks(f: &File, fi: usize, ctx: &Ctx, rep: &mut Report) {
         for (target, n_ops) in [("shp", n_shp), ("shx", n_shx)] {
             for k in 0..n_ops {
                 for persistent in [false, true] {
-                    let case = format!("c13:f{}:fault{}:{}{}:{}:k{}:{}", fi, layout, if with_shx { "idx" } else { "noidx" }, [ "", ":nth-first", ":seek-first"][order as usize], target, k, if persistent { "p" } else { "o" });
+                    let case = format!("c13:f{}:fault{}:{}{}:{}:k{}:{}", fi, layout, if with_shx { "idx" } else { "noidx" }, [ "", ":nth-first", ":seek-first", ":seek-behind-the-end", ":complete-reader"][order as usize], target, k, if persistent { "p" } else { "o" });
                     if !ctx.want(&case) {
                         continue;
                     }
@@ -500,7 +598,7 @@ fn faults_and_chunks(f: &File, fi: usize, ctx: &Ctx, rep: &mut Report) {
                                 }
                             }
                             // everything returned Ok before/after must be genuine
-                            let mut pos = if order == 2 { n / 2 } else { 0usize };
+                            let mut pos = if order == 2 { n / 2 } else if order == 3 { n } else { 0usize };
                             for c in &calls {
                                 if let Some(g) = &c.4 {
                                     let idx = if c.1.starts_with("nth(") { c.1[4..c.1.len() - 1].parse::<usize>().unwrap_or(usize::MAX) } else { let p = pos; pos += 1; p };
